@@ -68,6 +68,11 @@ class SimCallback(object):
     def __deepcopy__(self, memo):
         w = _CUR[0]
         c = SimCallback(w.new_cid(), clone_of=self.cid)
+        # a STRICT handler (one that raises whenever it is notified at its site) is strict by its
+        # code, not by a one-shot arming: the copies the library makes of it are strict too
+        for site, act in self.armed.items():
+            if act.get('sticky'):
+                c.armed[site] = dict(act)
         w.all_cbs.append(c)
         return c
 
@@ -423,6 +428,8 @@ class World(object):
         act = cb.armed.pop(site, None)
         if act is None:
             return
+        if act.get('sticky'):
+            cb.armed[site] = act
         if act.get('unregister'):
             # a one-shot callback: removes itself from the object's list while being notified
             self.bump('fault_F7_unregister_fired')
@@ -467,10 +474,15 @@ class World(object):
             rec['done'] = True
             return
         if act.get('raise'):
+            if act.get('sticky'):
+                self.bump('fault_F3_strict_fired')
+                if k is None:
+                    self.bump('fault_F3_strict_fired_on_temporary')
             self.bump('fault_F3_fired')
             self.bump('fault_F3_fired_' + site)
             if st is not None:
                 st.extra['f3_site'] = site
+                st.extra['f3_slot'] = k       # None: fired for a temporary the library built (a copy of the handler)
             raise SimFault(site)
         ops = act.get('ops') or []
         if st is None or st.depth + 1 > MAX_DEPTH:
@@ -623,7 +635,8 @@ class World(object):
     def performed_before_abort(st):
         """True iff this step was aborted by ITS OWN destination's callback at a site that is
         notified after the store (fault F3 at on_status_inaccuracy / on_value_change)."""
-        return (st.outcome == 'aborted' and not st.nested and
+        return (st.outcome == 'aborted' and not st.nested and st.dest is not None and
+                st.extra.get('f3_slot') == st.dest and
                 st.extra.get('f3_site') in ('on_status_inaccuracy', 'on_value_change'))
 
     def log_entry(self, st):
@@ -2045,6 +2058,9 @@ class World(object):
             self.bump('fault_F8_armed')
         elif op.get('raise'):
             cb.armed[op['site']] = {'raise': True}
+            if op.get('sticky'):
+                cb.armed[op['site']]['sticky'] = True
+                self.bump('fault_F3_strict_armed')
             self.bump('fault_F3_armed')
         else:
             cb.armed[op['site']] = {'ops': op.get('ops') or []}
